@@ -81,6 +81,7 @@ def run(ctx):
                     ctx.violation('validate-off', case, first_diff(exp, got_nv)[:1500], KNOWN_PRED)
         if i == 1:
             ctx.sample({'sheet': repr(sheet)[:600], 'spelled': text[:600]})
+    directed_families(ctx)
     # real-world sheets shipped with the repository: spelling-independent facts only
     import glob
     import os
@@ -101,6 +102,73 @@ def run(ctx):
     ctx.extra['real_sheets'] = nreal
     agree = slicing.correspondence(ctx, texts[:150 if quick else 3000])
     ctx.extra['correspondence'] = {'slicing_checks_agree_total': agree}
+
+
+def directed_families(ctx):
+    """(1) comments anywhere inside calc(): the value denotes what it denotes without them; (2) namespaced type
+    selectors as the argument of :not(): the negation holds the (namespace URI, name) pair the prefix / default
+    namespace gives"""
+    import cssutils
+    from harness import sem_dom as S
+    rng = ctx.rng
+    quick = ctx.tier == 'quick'
+    # (1)
+    gaps = ['', ' ', '/*a*/', ' /*a*/', '/*a*/ ', ' /*a*/ ', ' /*a*/ /*b*/ ', ' /*a*//*b*/ ', '/*a*/ /*b*/', '\n/*a*/\t/*b*/\n/*c*/ ']
+    for expr, toks in (('1px + 2px', ['1px', '+', '2px']), ('3em * 2', ['3em', '*', '2']), ('100% - 2 * 1px', ['100%', '-', '2', '*', '1px'])):
+        for _ in range(12 if quick else 200):
+            g = [rng.choice(gaps) for _ in range(len(toks) + 1)]
+            # white space is required around + and - (and kept around * for uniformity)
+            g = [g[0]] + [x if x.strip(' \n\t') != x or x in (' ',) else ' ' + x + ' ' for x in g[1:-1]] + [g[-1]]
+            inner = g[0] + ''.join(t + g[i + 1] for i, t in enumerate(toks))
+            text = 'a{width:calc(%s);top:0}' % inner
+            plain = 'a{width:calc(%s);top:0}' % expr
+            case = {'text': text, 'family': 'calc-comments'}
+            ctx.case(text)
+            try:
+                got = S.sem_sheet(parse(text))
+                want = S.sem_sheet(parse(plain))
+                strip = lambda sem: repr(sem).replace("('comment', 'a')", '').replace("('comment', 'b')", '').replace("('comment', 'c')", '')  # noqa: E731
+                sh = parse(text)
+                v1 = sh.cssRules[0].style.getPropertyValue('width') if sh.cssRules.length else None
+            except Exception as e:
+                ctx.violation('raises', case, '%s: %s' % (type(e).__name__, e), KNOWN_PRED)
+                continue
+            nocom = S.strip_comments(v1 or '').replace(' ', '') if v1 else None
+            if v1 is None or nocom != ('calc(%s)' % expr).replace(' ', '') or len(got) != len(want) or len(got[0][2]) != len(want[0][2]):
+                ctx.violation('denotation', case, 'width reads %r (without comments %r), expected calc(%s); sheet %r' % (v1, nocom, expr, got), KNOWN_PRED)
+    # (2)
+    ANY = '*ANY*'
+    NEG = [('@namespace p "u"; b:not(p|a){l:0}', [(None, 'b'), ('u', 'a')]),
+           ('@namespace "d"; @namespace p "u"; b:not(a){l:0}', [('d', 'b'), ('d', 'a')]),
+           ('@namespace "d"; @namespace p "u"; b:not(p|a){l:0}', [('d', 'b'), ('u', 'a')]),
+           ('@namespace p "u"; b:not(*|a){l:0}', [(None, 'b'), (ANY, 'a')]),
+           ('@namespace "d"; b:not(|a){l:0}', [('d', 'b'), ('', 'a')]),
+           ('@namespace p "u"; @media tv{p|b:not(p|a) > c:not(p|*){l:0}}', [('u', 'b'), ('u', 'a'), (None, 'c'), ('u', '*')]),
+           ('@namespace p "u"; @namespace q "v"; q|x:not(p|a), y:not(q|z){l:0}', [('v', 'x'), ('u', 'a'), (None, 'y'), ('v', 'z')])]
+    for text, want in NEG:
+        for variant in (text, text.upper().replace('"U"', '"u"').replace('"V"', '"v"').replace('"D"', '"d"') if False else text.replace('{', ' {\n').replace(':not(', ':NOT(')):
+            case = {'text': variant, 'family': 'namespaced-negation'}
+            ctx.case(variant)
+            try:
+                sh = parse(variant)
+                got = []
+
+                def walk(rules):
+                    for r in rules:
+                        if r.type == r.STYLE_RULE:
+                            for sel in r.selectorList:
+                                for it in sel.seq:
+                                    if isinstance(it.value, tuple) and it.type != 'attribute-selector':
+                                        ns = it.value[0]
+                                        got.append((ANY if ns is not None and not isinstance(ns, str) else ns, it.value[1]))
+                        elif r.type == r.MEDIA_RULE:
+                            walk(r.cssRules)
+                walk(sh.cssRules)
+            except Exception as e:
+                ctx.violation('raises', case, '%s: %s' % (type(e).__name__, e), KNOWN_PRED)
+                continue
+            if got != want:
+                ctx.violation('denotation', case, 'type selectors denote %r, expected %r' % (got, want), KNOWN_PRED)
 
 
 def replay(path):
